@@ -34,6 +34,9 @@ func runC07(c *Ctx) {
 	ruleP2(c, "P2")
 	ruleY3(c, "P3")
 	ruleK(c, "", "P3", "")
+	// operators inside the right-hand side of an update must not write the document
+	r.Rule("P5", "pure operators (the value side of an update) do not write nodes of the document", 80)
+	ruleX1(c, "P5")
 	ruleR1(c, "R1", nil)
 	// drop the obligations of sub-rules that were asked for with an empty id
 	var kept []Oblig
@@ -59,11 +62,14 @@ func runC03(c *Ctx) {
 	r.Rule("D2", "the selection is evaluated read-only", 2)
 	r.Rule("D3", "the victim is located by exact comparison of like representations", 2)
 	r.Rule("K1", "a node entering a sequence gets Parent and its position as key", 2)
+	r.Rule("K2", "copies share no key node with the original (delete renumbers index keys in place)", 4)
 	ruleDelete(c, "D1", "D3")
 	ruleR1(c, "D2", func(k string) bool {
 		return strings.HasPrefix(k, "yqlib.deleteChildOperator/") || strings.HasPrefix(k, "yqlib.delPathsOperator/")
 	})
-	ruleK(c, "K1", "", "")
+	// evaluating the selection must not change the document it selects from
+	ruleX1(c, "D2")
+	ruleK(c, "K1", "K2", "")
 	dropEmptyRule(r)
 }
 
@@ -91,6 +97,7 @@ func runC04(c *Ctx) {
 	r.Rule("M2", "the writable merge context never evaluates a user sub-expression", 8)
 	r.Rule("M3", "the assignment primitive deep-copies (result shares no node with the right operand)", 20)
 	r.Rule("M5", "merge preferences always carry DontFollowAlias", 1)
+	r.Rule("M6", "the merge result is a new value, never an operand itself", 1)
 	// M1: X1 restricted to the merge-related handlers, plus DeeplyAssign
 	before := len(r.obligs)
 	ruleX1(c, "M1")
@@ -120,6 +127,7 @@ func runC04(c *Ctx) {
 	ruleX2(c, "M2")
 	ruleU1U2(c, "M3", "M3")
 	ruleM5(c, "M5")
+	ruleM6(c, "M6")
 }
 
 func runC16(c *Ctx) {
